@@ -117,11 +117,15 @@ func scenC04(r *Run) {
 		h := w.AddHost(name)
 		h.Ports = map[string]bool{"443": true, "8443": true}
 		h.Handler = func(target string, cr *ConnRec) *Response {
+			authority := name
+			if strings.Contains(name, ":") {
+				authority = "[" + name + "]" // an IPv6 literal
+			}
 			if strings.HasPrefix(target, "/.well-known/webfinger") {
 				return HTTPResponse("HTTP/1.0 200 OK", []string{"Content-Type: application/jrd+json"},
-					`{"subject":"acct:x","links":[{"rel":"self","type":"application/activity+json","href":"https://`+name+`/a/u1"}]}`, "\r\n")
+					`{"subject":"acct:x","links":[{"rel":"self","type":"application/activity+json","href":"https://`+authority+`/a/u1"}]}`, "\r\n")
 			}
-			hostport := name
+			hostport := authority
 			if cr.Port != "443" {
 				hostport += ":" + cr.Port
 			}
@@ -133,6 +137,7 @@ func scenC04(r *Run) {
 	mk("h2.example")
 	mk("h1.example.")
 	mk("xn--e1afmkfd.example")
+	mk("::1") // the loopback literal: reachable whatever zone is attached to it
 	// a plaintext-only listener: nothing may ever be sent to it
 	plain := w.AddHost("plain.example")
 	plain.PlainOnly = true
@@ -154,7 +159,7 @@ func scenC04(r *Run) {
 		if t.Chance(1, 5) {
 			// webfinger handle, typed
 			accts := []string{"u1", "u 1", "u1&resource=acct:evil@h2.example", "u#1", "u%0d%0a", "ü", "u1@extra", ""}
-			doms := []string{"h1.example", "h2.example", "h1.example:8443", "h1.example/x?y=", "h1.example\r\nX-Injected: 1", "h1.example#f", "plain.example:80", "h1.example:443\r\nX: y", "user@h1.example"}
+			doms := []string{"[::1%0\r\nCookie: sid=c04]:443", "[::1%eth0]", "[::1]", "h1.example", "h2.example", "h1.example:8443", "h1.example/x?y=", "h1.example\r\nX-Injected: 1", "h1.example#f", "plain.example:80", "h1.example:443\r\nX: y", "user@h1.example"}
 			acct, dom := accts[t.Draw(len(accts))], doms[t.Draw(len(doms))]
 			p.raw = "@" + acct + "@" + dom
 			p.handle = true
@@ -231,6 +236,47 @@ func scenC04(r *Run) {
 			return
 		}
 	}
+	// relative Locations: resolved against the URL that issued them (RFC 3986), then requested
+	// well-formed from the right host
+	if t.Chance(1, 3) {
+		type rel struct{ loc, host, target string }
+		i := 900 + t.Draw(50)
+		base := fmt.Sprintf("/redir/%d", i)
+		cases := []rel{{"next", "h2.example", "/redir/next"}, {"../up?x=1", "h2.example", "/up?x=1"}, {"./here", "h2.example", "/redir/here"},
+			{"//h1.example/other", "h1.example", "/other"}, {"?q=1", "h2.example", base + "?q=1"}, {"/abs/path", "h2.example", "/abs/path"}, {"sub/dir/", "h2.example", "/redir/sub/dir/"}}
+		c := cases[t.Draw(len(cases))]
+		h2 := w.Hosts["h2.example"]
+		prev := h2.Handler
+		h2.Handler = func(target string, cr *ConnRec) *Response {
+			if target == base {
+				return Redirect(302, c.loc)
+			}
+			return prev(target, cr)
+		}
+		from := len(w.Conns)
+		api := t.Draw(2)
+		tk := r.Spawn("relredir", func() {
+			u := mustURL("https://h2.example" + base)
+			if api == 0 {
+				jtp.Get(u, AcceptAP, []string{"application/activity+json", "application/ld+json", "application/json"}, 20)
+			} else {
+				client.FetchURL(u)
+			}
+		})
+		r.Drive(func() bool { return tk.Done }, hugeHorizon, 20000)
+		seen := false
+		var all []string
+		for _, cr := range w.Conns[from:] {
+			all = append(all, cr.Host+cr.Target)
+			if strings.EqualFold(cr.Host, c.host) && cr.Target == c.target && cr.ReqDone {
+				seen = true
+			}
+		}
+		if !seen {
+			r.Violate("C04", "target", "relative-location-not-resolved", fmt.Sprintf("a redirect from https://h2.example%s with Location %q must lead to a request for %s%s; requests seen: %v", base, c.loc, c.host, c.target, all))
+		}
+		r.S.Probe("c04_relative_location")
+	}
 	// concurrent phase: several plain URLs on both hosts fetched at the same time; every one of
 	// them must be requested exactly once, on its own host, with its own target
 	if t.Chance(1, 2) {
@@ -285,12 +331,21 @@ func scenC04(r *Run) {
 			k := strings.IndexByte(rest, '@')
 			acct, dom := rest[:k], rest[k+1:]
 			host, port := dom, "443"
-			if j := strings.LastIndexByte(dom, ':'); j >= 0 {
+			if strings.HasPrefix(dom, "[") && strings.Contains(dom, "]") {
+				k := strings.LastIndexByte(dom, ']')
+				host = dom[1:k]
+				if z := strings.IndexByte(host, '%'); z >= 0 {
+					host = host[:z] // the zone does not change which machine is addressed
+				}
+				if strings.HasPrefix(dom[k+1:], ":") {
+					port = dom[k+2:]
+				}
+			} else if j := strings.LastIndexByte(dom, ':'); j >= 0 {
 				host, port = dom[:j], dom[j+1:]
 			}
 			add(host, port, strings.ReplaceAll("/.well-known/webfinger?resource=acct:"+acct+"@"+dom, "+", " "))
 			// the resolved actor and what it references live on the honest hosts
-			for _, hn := range []string{"h1.example", "h2.example"} {
+			for _, hn := range []string{"h1.example", "h2.example", "::1"} {
 				for _, pt := range []string{"443", "8443"} {
 					add(hn, pt, "/a/u1")
 				}
@@ -322,10 +377,14 @@ func scenC04(r *Run) {
 			if p.handle {
 				dec = strings.ReplaceAll(dec, "+", " ")
 			}
-			key := strings.ToLower(cr.Host) + "|" + cr.Port + "|" + dec
+			crHost := strings.ToLower(cr.Host)
+			if z := strings.IndexByte(crHost, '%'); z >= 0 && strings.Contains(crHost[:z], ":") {
+				crHost = crHost[:z] // an IPv6 zone does not change which machine was reached
+			}
+			key := crHost + "|" + cr.Port + "|" + dec
 			hostOK := false
 			for a := range allowed {
-				if strings.HasPrefix(a, strings.ToLower(cr.Host)+"|"+cr.Port+"|") {
+				if strings.HasPrefix(a, crHost+"|"+cr.Port+"|") {
 					hostOK = true
 				}
 			}
